@@ -26,14 +26,17 @@ func (d *defineBuiltinMethod) setupMethodArgs(
 	method string,
 	argTypes []base.T,
 	isStatic bool,
-) []string {
+) ([]string, map[string]*base.T) {
 
 	var argIdentifiers []string
+
+	keywordTs := make(map[string]*base.T)
 
 	for _, argType := range argTypes {
 		switch argType.IsKeyValueType() {
 		case true:
 			argIdentifiers = append(argIdentifiers, argType.GetKey())
+			keywordTs[argType.GetRemoveSuffixKey()] = argType.GetKeyValue()
 
 			base.SetOwnValueT(
 				d.frame,
@@ -56,7 +59,7 @@ func (d *defineBuiltinMethod) setupMethodArgs(
 		}
 	}
 
-	return argIdentifiers
+	return argIdentifiers, keywordTs
 }
 
 func (d *defineBuiltinMethod) defineBuiltinInstanceMethod(
@@ -66,8 +69,13 @@ func (d *defineBuiltinMethod) defineBuiltinInstanceMethod(
 	returnT base.T,
 ) {
 
-	argIdentifiers := d.setupMethodArgs(method, argTypes, false)
+	argIdentifiers, keywordTs := d.setupMethodArgs(method, argTypes, false)
 	methodT := base.MakeMethod(frame, method, returnT, argIdentifiers)
+
+	for name, keywordT := range keywordTs {
+		methodT.SetKeywordT(name, keywordT)
+	}
+
 	methodT.DefinedFrame = frame
 	methodT.DefinedClass = d.targetClass
 	methodT.IsStatic = false
@@ -107,9 +115,14 @@ func (d *defineBuiltinMethod) defineBuiltinStaticMethod(
 	returnT base.T,
 ) {
 
-	argIdentifiers := d.setupMethodArgs(method, argTypes, true)
+	argIdentifiers, keywordTs := d.setupMethodArgs(method, argTypes, true)
 
 	methodT := base.MakeMethod(frame, method, returnT, argIdentifiers)
+
+	for name, keywordT := range keywordTs {
+		methodT.SetKeywordT(name, keywordT)
+	}
+
 	methodT.DefinedFrame = frame
 	methodT.DefinedClass = d.targetClass
 	methodT.IsStatic = true
